@@ -15,6 +15,10 @@ pub struct ScriptCase {
     pub locals: Vec<(String, String)>,
     pub env: Vec<(String, String)>,
     pub text: String,
+    /// a second script run on the SAME runner afterwards (through `run_script_with_name`)
+    pub text2: Option<String>,
+    /// labels added (`add_label`) between the two scripts
+    pub labels2: Vec<String>,
     pub db: DbScript,
     /// free-form tag describing what the generator intended (not sent to the model)
     pub tag: String,
@@ -86,11 +90,22 @@ impl ScriptCase {
         o.push(' ');
         o.push_str(&hx(&self.text));
         o.push(' ');
-        o.push_str(&enc_regex_valid(&self.text));
+        o.push_str(&crate::enc::opt(&self.text2));
+        o.push_str(&format!(" {}", self.labels2.len()));
+        for l in &self.labels2 {
+            o.push(' ');
+            o.push_str(&hx(l));
+        }
+        let both = match &self.text2 {
+            Some(t2) => format!("{}\n{}", self.text, t2),
+            None => self.text.clone(),
+        };
+        o.push(' ');
+        o.push_str(&enc_regex_valid(&both));
         // regex match table: every valid candidate x every error text
         let errs = self.error_texts();
         let mut entries = vec![];
-        for r in regex_candidates(&self.text) {
+        for r in regex_candidates(&both) {
             if let Ok(re) = regex::Regex::new(&r) {
                 for e in &errs {
                     entries.push(format!("{} {} {}", hx(&r), hx(e), if re.is_match(e) { 1 } else { 0 }));
@@ -133,7 +148,37 @@ impl ScriptCase {
         if self.strict_cols {
             runner.with_column_validator(strict_column_validator);
         }
-        let res = catch_unwind(AssertUnwindSafe(|| runner.run_multi(records)));
+        // every public way of running a script is an entry point of the same semantics; which one a
+        // case goes through is a function of its text (so a replay takes the same one)
+        let entry = self.text.bytes().fold(0xcbf29ce484222325u64, |h, b| (h ^ b as u64).wrapping_mul(0x100000001b3)) % 5;
+        let text = self.text.clone();
+        let res = catch_unwind(AssertUnwindSafe(|| -> Result<(), TestError> {
+            match entry {
+                0 => runner.run_multi(records),
+                1 => {
+                    // the per-record API, driven the way `run_multi` drives it
+                    for record in records {
+                        if let Record::Halt { .. } = record {
+                            break;
+                        }
+                        runner.run(record)?;
+                    }
+                    Ok(())
+                }
+                2 => runner.run_script_with_name(&text, "t.slt"),
+                3 => futures::executor::block_on(runner.run_multi_async(records)),
+                _ => {
+                    let base = std::env::var("SLT_SCRATCH").unwrap_or_else(|_| "/verif/out/scratch".into());
+                    let dir = std::path::PathBuf::from(base).join(format!("entry_{}", std::process::id()));
+                    let _ = std::fs::create_dir_all(&dir);
+                    let path = dir.join("t.slt");
+                    std::fs::write(&path, &text).unwrap();
+                    let r = runner.run_file(&path);
+                    let _ = std::fs::remove_file(&path);
+                    r
+                }
+            }
+        }));
         let result = match res {
             Ok(Ok(())) => "ok".to_string(),
             Ok(Err(e)) => format!(
@@ -143,6 +188,30 @@ impl ScriptCase {
                 hx(&canon_subst_error(&terr_detail(&e.kind())))
             ),
             Err(_) => "crashed".to_string(),
+        };
+        let fmt_res = |res: std::thread::Result<Result<(), TestError>>| match res {
+            Ok(Ok(())) => "ok".to_string(),
+            Ok(Err(e)) => format!(
+                "failed {} {} {}",
+                e.location().line(),
+                terr_kind(&e.kind()),
+                hx(&canon_subst_error(&terr_detail(&e.kind())))
+            ),
+            Err(_) => "crashed".to_string(),
+        };
+        let result = match &self.text2 {
+            None => result,
+            Some(_) if result == "crashed" => format!("{} ;; -", result),
+            Some(t2) => match parse_with_name::<DefaultColumnType>(t2, "t2.slt") {
+                Err(e) => format!("{} ;; parseerr {} {}", result, perr_kind(&e.kind()), e.location().line()),
+                Ok(_) => {
+                    for l in &self.labels2 {
+                        runner.add_label(l);
+                    }
+                    let r2 = catch_unwind(AssertUnwindSafe(|| runner.run_script_with_name(t2, "t2.slt")));
+                    format!("{} ;; {}", result, fmt_res(r2))
+                }
+            },
         };
         let _ = catch_unwind(AssertUnwindSafe(|| runner.shutdown()));
         // canonicalise while the runner (and its test directory) is alive
